@@ -129,7 +129,7 @@ def assemble(tpl_path, repo=REPO, drop_lines=()):
             kv = parse_kv(st.split(' ', 2)[2])
             spec = dict(file=kv['file'], impl=kv.get('impl', ''), fn=kv['name'], nth=kv.get('nth', 0), let=kv.get('let', ''), params=kv.get('params', ''), var=kv.get('var', ''),
                         rules=[r for r in kv.get('rules', '').split(',') if r], ret=kv.get('ret', 'r'),
-                        loops={}, loop_tails={}, sig_sub=[], ghost_args=[], ghost_params=[], closures={}, derefs=[])
+                        loops={}, loop_tails={}, loop_vars={}, sig_sub=[], ghost_args=[], ghost_params=[], closures={}, derefs=[])
             section, buf = None, []
             i += 1
 
@@ -151,7 +151,7 @@ def assemble(tpl_path, repo=REPO, drop_lines=()):
                     flush()
                     break
                 m = re.match(r'//@@ (contract|proof|attrs|entry|signature)\s*$', st2)
-                m2 = re.match(r'//@@ loop (\d+)\s*$', st2)
+                m2 = re.match(r'//@@ loop (\d+)(?:\s+var=(\w+))?\s*$', st2)
                 m3 = re.match(r'//@@ sigsub /(.*)/ =>\s?(.*)$', st2)
                 m4 = re.match(r'//@@ looptail (\d+)\s*$', st2)
                 if m:
@@ -160,6 +160,8 @@ def assemble(tpl_path, repo=REPO, drop_lines=()):
                 elif m2:
                     flush()
                     section, buf = int(m2.group(1)), []
+                    if m2.group(2):
+                        spec['loop_vars'][int(m2.group(1))] = m2.group(2)
                 elif m4:
                     flush()
                     section, buf = ('tail', int(m4.group(1))), []
@@ -168,6 +170,9 @@ def assemble(tpl_path, repo=REPO, drop_lines=()):
                     section, buf = ('closure', int(re.match(r'//@@ closure (\d+)', st2).group(1))), []
                 elif st2.startswith('//@@ ghostparam '):
                     spec['ghost_params'].append(st2[len('//@@ ghostparam '):].strip())
+                elif st2.startswith('//@@ ascribe '):
+                    nm, ty = st2[len('//@@ ascribe '):].split(':', 1)
+                    spec.setdefault('ascribe', []).append((nm.strip(), ty.strip()))
                 elif st2.startswith('//@@ deref '):
                     kv2 = parse_kv(st2[len('//@@ deref '):])
                     spec['derefs'].append((kv2['var'], kv2['fields'].split(',')))
